@@ -1348,11 +1348,7 @@ func (r *Resolver) doneTriggerFromUpdater(trig *trigger) {
 
 // handleTriggerComplete delivers a complete signal to all subscriptions on the trigger.
 // Does NOT detach the trigger — Done() does that.
-func (r *Resolver) handleTriggerComplete(triggerID uint64) {
-	trig, ok := r.getTrigger(triggerID)
-	if !ok {
-		return
-	}
+func (r *Resolver) handleTriggerComplete(trig *trigger) {
 	subs := trig.snapshotSubscriptions()
 
 	for _, s := range subs {
@@ -1365,11 +1361,7 @@ func (r *Resolver) handleTriggerComplete(triggerID uint64) {
 
 // handleTriggerError delivers a terminal error to all subscriptions on the trigger,
 // bypassing the resolve pipeline. Does NOT detach the trigger — Done() does that.
-func (r *Resolver) handleTriggerError(triggerID uint64, data []byte) {
-	trig, ok := r.getTrigger(triggerID)
-	if !ok {
-		return
-	}
+func (r *Resolver) handleTriggerError(trig *trigger, data []byte) {
 	subs := trig.snapshotSubscriptions()
 
 	for _, s := range subs {
@@ -1530,11 +1522,10 @@ type pendingFilterError struct {
 }
 
 // handleTriggerUpdate sends data to all subscriptions of a trigger.
-func (r *Resolver) handleTriggerUpdate(id uint64, data []byte) {
-	trig, ok := r.getTrigger(id)
-	if !ok {
-		return
-	}
+// The updater passes its own trigger: a trigger that left the registry has no subscriptions any more, whereas a
+// lookup by id could find a newer trigger with the same id and deliver to its subscribers.
+func (r *Resolver) handleTriggerUpdate(trig *trigger, data []byte) {
+	id := trig.id
 	if r.options.Debug {
 		fmt.Printf("resolver:trigger:update:%d\n", id)
 	}
@@ -1559,11 +1550,8 @@ func (r *Resolver) handleTriggerUpdate(id uint64, data []byte) {
 }
 
 // handleUpdateSubscription sends data to a single subscription.
-func (r *Resolver) handleUpdateSubscription(id uint64, data []byte, subIdentifier SubscriptionIdentifier) {
-	trig, ok := r.getTrigger(id)
-	if !ok {
-		return
-	}
+func (r *Resolver) handleUpdateSubscription(trig *trigger, data []byte, subIdentifier SubscriptionIdentifier) {
+	id := trig.id
 
 	if r.options.Debug {
 		fmt.Printf("resolver:trigger:subscription:update:%d:%d,%d\n", id, subIdentifier.ConnectionID, subIdentifier.SubscriptionID)
@@ -1585,7 +1573,10 @@ func (r *Resolver) heartbeatTriggerSubscriptions(id uint64) {
 	if !ok {
 		return
 	}
+	r.heartbeatSubscriptions(trig)
+}
 
+func (r *Resolver) heartbeatSubscriptions(trig *trigger) {
 	subs := trig.snapshotSubscriptions()
 	targets := make([]*subscriptionState, 0, len(subs))
 	for _, s := range subs {
@@ -1993,7 +1984,7 @@ func (s *subscriptionUpdater) Update(data []byte) {
 	if s.debug {
 		fmt.Printf("resolver:subscription_updater:update:%d\n", s.triggerID)
 	}
-	s.resolver.handleTriggerUpdate(s.triggerID, data)
+	s.resolver.handleTriggerUpdate(s.trig, data)
 }
 
 func (s *subscriptionUpdater) Heartbeat() {
@@ -2003,7 +1994,7 @@ func (s *subscriptionUpdater) Heartbeat() {
 	if s.done || s.ctx.Err() != nil {
 		return
 	}
-	s.resolver.heartbeatTriggerSubscriptions(s.triggerID)
+	s.resolver.heartbeatSubscriptions(s.trig)
 }
 
 func (s *subscriptionUpdater) UpdateSubscription(id SubscriptionIdentifier, data []byte) {
@@ -2016,7 +2007,7 @@ func (s *subscriptionUpdater) UpdateSubscription(id SubscriptionIdentifier, data
 	if s.debug {
 		fmt.Printf("resolver:subscription_updater:update:%d\n", s.triggerID)
 	}
-	s.resolver.handleUpdateSubscription(s.triggerID, data, id)
+	s.resolver.handleUpdateSubscription(s.trig, data, id)
 }
 
 func (s *subscriptionUpdater) Subscriptions() map[context.Context]SubscriptionIdentifier {
@@ -2036,7 +2027,7 @@ func (s *subscriptionUpdater) Complete() {
 	if s.debug {
 		fmt.Printf("resolver:subscription_updater:complete:%d\n", s.triggerID)
 	}
-	s.resolver.handleTriggerComplete(s.triggerID)
+	s.resolver.handleTriggerComplete(s.trig)
 }
 
 func (s *subscriptionUpdater) Error(data []byte) {
@@ -2052,7 +2043,7 @@ func (s *subscriptionUpdater) Error(data []byte) {
 	if s.debug {
 		fmt.Printf("resolver:subscription_updater:error:%d\n", s.triggerID)
 	}
-	s.resolver.handleTriggerError(s.triggerID, data)
+	s.resolver.handleTriggerError(s.trig, data)
 }
 
 func (s *subscriptionUpdater) Done() {
